@@ -238,6 +238,33 @@ pub mod wiring {
     use super::*;
     const N: usize = 2;
 
+    /// an iterator-like source that runs out (and says so): the adaptor keeps feeding the window -
+    /// with the equilibrium frames the exhausted source yields - so the RMS decays to 0; it never
+    /// freezes, and it keeps pulling one source frame per output
+    #[kani::proof]
+    #[kani::unwind(8)]
+    #[kani::stub(dasp_sample::ops::f32::sqrt, super::sqrt_marker_f32)]
+    pub fn adaptor_past_the_end_of_a_finite_source() {
+        use crate::sigprobe::Probe;
+        let ks: [i8; 3] = kani::any();
+        let len: usize = kani::any();
+        kani::assume(len <= 3);
+        let mut src: Probe<f32, 3> = Probe::new([ks[0] as f32 / 16.0, ks[1] as f32 / 16.0, ks[2] as f32 / 16.0], len);
+        let s0 = src.clone();
+        let mut reference: Rms<f32, [f32; N]> = Rms::new(Fixed::from([0.0f32; N]));
+        {
+            let mut sig = src.by_ref().rms(Fixed::from([0.0f32; N]));
+            for n in 0..5 {
+                assert!(sig.is_exhausted() == (n >= len));
+                let y = sig.next();
+                assert!(y == reference.next(s0.frame(n)), "output n is the RMS after feeding source frame n (equilibrium past the end)");
+            }
+        }
+        assert!(src.pulls == 5, "one source frame per output frame, exhausted or not");
+        kani::cover!(len == 1, "source ends early");
+        kani::cover!(true, "end");
+    }
+
     fn any_state() -> (usize, [f32; N], f32) {
         let first: usize = kani::any();
         kani::assume(first < N);
